@@ -12,19 +12,19 @@ Frac(bits) == [k |-> "frac", bits |-> bits]
 Timestamp_FromCbor(v) ==
   IF v.t = "int" THEN (IF IntFitsI64(v) THEN Good(Whole(v)) ELSE Err("OutOfRangeIntegerValue"))
   ELSE IF v.t = "float" THEN Good(Frac(v.bits))
-  ELSE TypeErr
+  ELSE WrongType(v, "int/float")
 Timestamp_ToCbor(ts) == IF ts.k = "whole" THEN ts.v ELSE Flt(ts.bits)
 
 ClaimIs(name, nm) == name = Assigned("CwtClaimName", nm)
 
 ClaimStep(st, name, v) ==
-  IF ClaimIs(name, "Iss") THEN (IF v.t = "text" THEN Good([st EXCEPT !.iss = <<v.s>>]) ELSE TypeErr)
-  ELSE IF ClaimIs(name, "Sub") THEN (IF v.t = "text" THEN Good([st EXCEPT !.sub = <<v.s>>]) ELSE TypeErr)
-  ELSE IF ClaimIs(name, "Aud") THEN (IF v.t = "text" THEN Good([st EXCEPT !.aud = <<v.s>>]) ELSE TypeErr)
+  IF ClaimIs(name, "Iss") THEN (IF v.t = "text" THEN Good([st EXCEPT !.iss = <<v.s>>]) ELSE WrongType(v, "tstr"))
+  ELSE IF ClaimIs(name, "Sub") THEN (IF v.t = "text" THEN Good([st EXCEPT !.sub = <<v.s>>]) ELSE WrongType(v, "tstr"))
+  ELSE IF ClaimIs(name, "Aud") THEN (IF v.t = "text" THEN Good([st EXCEPT !.aud = <<v.s>>]) ELSE WrongType(v, "tstr"))
   ELSE IF ClaimIs(name, "Exp") THEN LET r == Timestamp_FromCbor(v) IN IF r.ok THEN Good([st EXCEPT !.exp = <<r.x>>]) ELSE r
   ELSE IF ClaimIs(name, "Nbf") THEN LET r == Timestamp_FromCbor(v) IN IF r.ok THEN Good([st EXCEPT !.nbf = <<r.x>>]) ELSE r
   ELSE IF ClaimIs(name, "Iat") THEN LET r == Timestamp_FromCbor(v) IN IF r.ok THEN Good([st EXCEPT !.iat = <<r.x>>]) ELSE r
-  ELSE IF ClaimIs(name, "Cti") THEN (IF v.t = "bytes" THEN Good([st EXCEPT !.cti = <<v.b>>]) ELSE TypeErr)
+  ELSE IF ClaimIs(name, "Cti") THEN (IF v.t = "bytes" THEN Good([st EXCEPT !.cti = <<v.b>>]) ELSE WrongType(v, "bstr"))
   ELSE Good([st EXCEPT !.rest = Append(@, <<name, v>>)])
 
 RECURSIVE ClaimsFold(_, _, _)
@@ -36,7 +36,7 @@ ClaimsFold(m, st, seen) ==
     ELSE LET r == ClaimStep(st, nr.x, m[1][2]) IN
       IF ~r.ok THEN r ELSE ClaimsFold(Tail(m), r.x, seen \cup {nr.x})
 
-Claims_FromCbor(v) == IF v.t # "map" THEN TypeErr ELSE ClaimsFold(v.m, EmptyClaims, {})
+Claims_FromCbor(v) == IF v.t # "map" THEN WrongType(v, "map") ELSE ClaimsFold(v.m, EmptyClaims, {})
 
 (* encode: typed claims in registry order, then the extras as given -- NO duplicate check  *)
 (* (known finding F4: the test suite itself pins "encoding succeeds" for a repeated claim) *)
